@@ -74,6 +74,14 @@ func famLossValue(g *Gen) {
 	k := g.intn(3)
 	g.tag(lossNames[k])
 	b := 1 + g.intn(5)
+	if k == 0 && g.chance(0.1) {
+		b = g.pick(1030, 129, 300)
+		g.tag("large-batch")
+	}
+	if k == 0 && g.chance(0.08) {
+		// an epoch-sized batch: the mean runs over tens of thousands of terms (checked against the formula directly)
+		g.directMSEBig(g.pick(16390, 20000, 40000))
+	}
 	ds := []int{b}
 	if k == 2 {
 		ds = []int{b, 1 + g.intn(5)}
@@ -341,6 +349,11 @@ func famActGrad(g *Gen) {
 func famFC(g *Gen) {
 	g.nontr = true
 	in, out, batch := 1+g.intn(4), 1+g.intn(4), 1+g.intn(4)
+	if g.chance(0.12) {
+		// wide inputs: the layer sums every row over its features (unrolled / blocked row sums start at 32 or 64)
+		in = g.pick(32, 36, 64, 33, 100)
+		g.tag("wide-input")
+	}
 	c := Cmd{Op: OpFCNew, Dims: []int{in, out}, WI: OptInit{Absent: true}, BI: OptInit{Absent: true}}
 	if g.chance(0.4) {
 		c.WI = OptInit{Spec: g.validInit()}
@@ -378,6 +391,20 @@ func famFC(g *Gen) {
 	if g.isT(y) {
 		g.weightAndBackprop(y)
 	}
+	if g.isT(y) && g.isT(w) && g.isT(b) && g.chance(0.5) {
+		// gradient probing twice on the same layer object and the same (un-replaced) parameter tensors, with a
+		// reset of their gradient contexts in between
+		g.tag("probe-reset-probe")
+		for pass := 0; pass < 2+g.intn(2); pass++ {
+			yy, _ := g.do(Cmd{Op: OpFCForward, T: fc, Targs: []Targ{T(x)}})
+			g.weightAndBackprop(yy)
+			g.do(Cmd{Op: OpReset, T: w, Flag: true})
+			g.do(Cmd{Op: OpReset, T: b, Flag: true})
+			if g.chance(0.5) {
+				g.do(Cmd{Op: OpReset, T: x, Flag: g.chance(0.7)})
+			}
+		}
+	}
 	if g.chance(0.3) {
 		g.tag("invalid")
 		g.do(Cmd{Op: OpFCForward, T: fc, Targs: nil})
@@ -413,6 +440,11 @@ func (g *Gen) validInit() InitSpec {
 func famSGD(g *Gen) {
 	g.nontr = true
 	ds := g.shape(0, 5, 3)
+	if g.chance(0.1) {
+		// a weight of realistic height (chunked / parallel element-wise paths start at 64 rows)
+		ds = [][]int{{100, 3}, {70}, {65, 2}, {129}}[g.intn(4)]
+		g.tag("tall-weight")
+	}
 	c := Cmd{Op: OpSGDNew}
 	if g.chance(0.8) {
 		c.HasA = true
@@ -500,6 +532,11 @@ func famTrain(g *Gen) {
 		}
 		if !(skipReset && s == 0) {
 			wname, bname := len(g.Cmds)-2, len(g.Cmds)-1
+			if g.chance(0.3) {
+				// an evaluation pass on the freshly updated (still spent) weights before they are reset
+				g.do(Cmd{Op: OpFCForward, T: fc, Targs: []Targ{T(x)}})
+				g.tag("eval-forward-before-reset")
+			}
 			g.do(Cmd{Op: OpReset, T: wname, Flag: true})
 			g.do(Cmd{Op: OpReset, T: bname, Flag: true})
 		}
@@ -527,14 +564,22 @@ func famInit(g *Gen) {
 		ds := g.shape(0, 4, 3)
 		if g.chance(0.1) {
 			ds = append(ds, g.pick(0, -1))
+		} else if g.chance(0.04) {
+			ds = [][]int{{33, 34}, {1100}}[g.intn(2)]
+			g.tag("large-init")
 		}
 		g.do(Cmd{Op: OpInit, Init: s, Dims: ds})
 	}
 	// random constructors interleaved
 	if g.chance(0.6) {
-		g.do(Cmd{Op: OpRandU, Dims: g.shape(0, 3, 3), A: Dec{-1, 0}, B: Dec{int64(g.pick(1, 3, -1, -2)), 0}, Cfg: &Cfg{Dev: 1, Track: g.chance(0.5)}})
+		rds := g.shape(0, 3, 3)
+		g.do(Cmd{Op: OpRandU, Dims: rds, A: Dec{-1, 0}, B: Dec{int64(g.pick(1, 3, -1, -2)), 0}, Cfg: &Cfg{Dev: 1, Track: g.chance(0.5)}})
 		g.do(Cmd{Op: OpRandN, Dims: g.shape(0, 3, 3), A: smallDec(g), B: Dec{int64(g.pick(1, 2, 0, -1)), 0}, Cfg: nil})
 		g.tag("randu/randn")
+	}
+	if g.chance(0.08) {
+		// a weight matrix of realistic size (parallel / blocked fill paths start around 1<<14 elements)
+		g.directInitBig([][]int{{128, 130}, {256, 128}, {20000}, {4, 70, 64}}[g.intn(4)])
 	}
 }
 
@@ -545,12 +590,20 @@ func famAccuracy(g *Gen) {
 	g.do(Cmd{Op: OpAccResult, T: acc})
 	nb := 1 + g.intn(5)
 	var allP, allT []float64
+	long := g.chance(0.2)
+	if long {
+		g.tag("long-batch")
+	}
 	for i := 0; i < nb; i++ {
 		b := 1 + g.intn(6)
+		if long && i == nb/2 {
+			// evaluation over a whole data set in one call
+			b = g.pick(129, 200, 257, 513, 1000)
+		}
 		pv, tv := make([]float64, b), make([]float64, b)
 		for j := range pv {
 			pv[j] = float64(g.intn(4))
-			if g.chance(0.6) {
+			if g.chance(0.6) || (long && j == b-1) {
 				tv[j] = pv[j]
 			} else {
 				tv[j] = float64(g.intn(4)) + float64(g.pick(0, 0, 1))*0.5
